@@ -507,6 +507,11 @@ class Interp:
             return T.mk("mcall", (recv, name, *args), kwargs, origin=site)
         if f.op == "unravel_of" and len(args) == 1 and not kwargs and isinstance(args[0], T.Term) and args[0].op == "tree.ravel" and args[0].args[0] is f.args[0]:
             return f.args[0]  # unravel(ravel(x)) == x
+        if f.op == "unravel_of" and len(args) == 1 and not kwargs and isinstance(f.args[0], (list, tuple)) and f.args[0] and all(isinstance(x, T.Term) for x in f.args[0]):
+            # un-ravelling into a flat list/tuple of leaves gives a container of the same length (entry i is opaque)
+            whole = T.mk("call", (f, *args), kwargs, origin=site)
+            items = [T.mk("getitem", (whole, i), origin=site, meta={"array": True}) for i in range(len(f.args[0]))]
+            return items if isinstance(f.args[0], list) else tuple(items)
         return T.mk("call", (f, *args), kwargs, origin=site)
 
     def call_closure(self, fn: Closure, args, kwargs, site):
@@ -1460,7 +1465,10 @@ class Interp:
             except TypeError:
                 pass
         if name in ("eq", "ne") and isinstance(a, (tuple, list)) and isinstance(b, (tuple, list)):
-            if len(a) != len(b):
+            def _open(c):  # a starred abstract sequence (or anything derived from one) has an unknown number of entries
+                return any(isinstance(x, T.Term) and any(isinstance(y, T.Term) and y.op == "star" for y in T.subterms(x)) for x in c)
+
+            if len(a) != len(b) and not _open(a) and not _open(b):
                 return name == "ne"
             if all(x is y for x, y in zip(a, b)):
                 return name == "eq"
